@@ -153,7 +153,14 @@ let judge _id (c : cursor) (r : cursor) : bool * string =
   let entropy = if is_r then next_int c else 0 in
   let _seed = next c in
   let ns = next_int c in let na = next_int c in let _no = next_int c in let nk = next_int c in
-  let disc = next_q c in
+  let disc0 = next_q c in
+  (* the model's CURRENT discount: setter calls "D <disc>" between planner calls change it (the planners
+     read model_.getDiscount() at use time); range_disc = the largest discount in force since the last
+     call from scratch (the range bound is monotone in the discount, older estimates stay in the tree) *)
+  let disc = ref disc0 in
+  let range_disc = ref disc0 in
+  let disc_changed = ref false in
+  let rew_changed = ref false in
   let termv = Array.init ns (fun _ -> next_int c <> 0) in
   let maxr = ref q_zero in
   for _ = 1 to ns * na * nk do
@@ -183,7 +190,19 @@ let judge _id (c : cursor) (r : cursor) : bool * string =
   let range_valid = ref true in
   let prev_h = ref (-1) in
   for opi = 0 to nops - 1 do
-    let opk = next c in
+    let rec read_op () =
+      let k = next c in
+      if k = "D" then begin
+        let d = next_q c in
+        if not (q_eq d !disc) then disc_changed := true;
+        disc := d; read_op ()
+      end else if k = "W" then begin
+        (* a reward of the model changes: the range bound uses the largest |reward| ever in force *)
+        let _i = next_int c in let rw = next_q c in
+        maxr := q_max !maxr (q_abs rw); rew_changed := true; read_op ()
+      end else k in
+    let opk = read_op () in
+    if opk = "F" then range_disc := !disc else range_disc := q_max !range_disc !disc;
     (* ---- read the op and the implementation's outputs *)
     let (a1, a2, h, bvec) =
       if is_mcts then begin
@@ -223,7 +242,7 @@ let judge _id (c : cursor) (r : cursor) : bool * string =
          node contributed 0. *)
       if entropy = 0 && opk = "F" && h > 0 then begin
         let one = q_of_ints 1 1 in
-        match range_ok disc one h 0 itree with
+        match range_ok !disc one h 0 itree with
         | Some (w, v, b) -> oracle_fail "value_in_range" site (Printf.sprintf "%s: |V| = %s exceeds the %s bound %s" opsite (string_of_q v) w (string_of_q b))
         | None ->
           let rec neg (n : node) = List.exists (fun a -> (ioN (aN a) > 0 && q_lt (aV a) (q_of_ints (-1) 1000000)) || List.exists (fun (_, c) -> neg c) (kids a)) (acts n) in
@@ -309,7 +328,7 @@ let judge _id (c : cursor) (r : cursor) : bool * string =
           | x :: _ -> let a = ioN x.e.ea in
             if a < na then begin
               cnt.(a) <- cnt.(a) + 1;
-              sm.(a) <- vio_qred (q_add sm.(a) (disc_sum disc (List.map (fun y -> y.e.er) g)))
+              sm.(a) <- vio_qred (q_add sm.(a) (disc_sum !disc (List.map (fun y -> y.e.er) g)))
             end
           | [] -> ()) (split_groups steps_i evs);
       List.iteri (fun a an ->
@@ -365,9 +384,9 @@ let judge _id (c : cursor) (r : cursor) : bool * string =
       let tr = List.map (fun x -> x.e) evs in
       let op = if opk = "F" then RFresh (isb, nat_of_int h) else RAdvance (nat_of_int a1, nat_of_int a2, nat_of_int h, isb) in
       (* hypothesis of particles_consistent_full_rpomcp, evaluated on the real log by the Coq checker *)
-      if not (r_coh_op a_n term disc (nat_of_int kk) (entropy <> 0) plogp iters_n !rtree op tr) then
+      if not (r_coh_op a_n term !disc (nat_of_int kk) (entropy <> 0) plogp iters_n !rtree op tr) then
         disagree "log_coherent" site (opsite ^ ": the log is not coherent with the planner's state threading (r_coh_op = false)");
-      let (sb_m, (((g', act), tr'), steps_m)) = r_op a_n term disc (nat_of_int kk) (entropy <> 0) plogp iters_n !rtree op tr in
+      let (sb_m, (((g', act), tr'), steps_m)) = r_op a_n term !disc (nat_of_int kk) (entropy <> 0) plogp iters_n !rtree op tr in
       let steps_mi = List.map ioN steps_m in
       if steps_mi <> steps_i then disagree "simulation_boundaries" site (Printf.sprintf "%s: model calls per simulation: model [%s] impl [%s]" opsite (str_ints steps_mi) (str_ints steps_i));
       if tr' <> [] || List.fold_left (+) 0 steps_mi <> List.length evs then disagree "trace_consumed" site (opsite ^ ": the machine did not consume the log exactly");
@@ -389,14 +408,14 @@ let judge _id (c : cursor) (r : cursor) : bool * string =
     let (((g', act), tr'), steps_m) =
       if is_mcts then
         let op = if opk = "F" then MFresh (nat_of_int a1, nat_of_int h) else MAdvance (nat_of_int a1, nat_of_int a2, nat_of_int h) in
-        mcts_op ga term disc rl iters_n !tree op tr
+        mcts_op ga term !disc rl iters_n !tree op tr
       else
         let ps = rs in   (* makeSampledBelief's draws: the predicted resample, only used on a (re)start *)
         let op = if opk = "F" then PFresh (ps, nat_of_int h) else PAdvance (nat_of_int a1, nat_of_int a2, nat_of_int h, ps) in
         (* hypothesis of particles_consistent_full_pomcp, evaluated on the real log by the Coq checker *)
-        if not (pomcp_coh_op a_n term disc rl iters_n !tree op tr) then
+        if not (pomcp_coh_op a_n term !disc rl iters_n !tree op tr) then
           disagree "log_coherent" site (opsite ^ ": the log is not coherent with the planner's state threading (pomcp_coh_op = false)");
-        pomcp_op a_n term disc rl iters_n !tree op tr in
+        pomcp_op a_n term !disc rl iters_n !tree op tr in
     if opk <> "F" then begin
       (* did the machine promote a subtree? (for the evidence histogram) *)
       let before = !tree in
@@ -417,7 +436,7 @@ let judge _id (c : cursor) (r : cursor) : bool * string =
      | None -> if ioN act <> ret then disagree "findBestA" site (Printf.sprintf "%s: returned action model %d impl %d" opsite (ioN act) ret));
     (* value range (after C so that a horizon overrun is reported as such first) *)
     if !range_valid && h > 0 then
-      (match range_ok disc !maxr h 0 itree with
+      (match range_ok !range_disc !maxr h 0 itree with
        | Some (w, v, b) -> defer "value_in_range" site (Printf.sprintf "%s: |V| = %s exceeds the %s bound %s" opsite (string_of_q v) w (string_of_q b))
        | None -> ());
     if tree_depth g' >= 2 then nontrivial := true;
@@ -427,7 +446,7 @@ let judge _id (c : cursor) (r : cursor) : bool * string =
   done;
   (match !deferred with Some (cl, st, d) -> oracle_fail cl st d | None -> ());
   (!nontrivial || !promoted > 0,
-   Printf.sprintf "%s%s%s" (if is_r then (if entropy <> 0 then "rpomcp-entropy" else "rpomcp-maxbelief") else kind) (if !promoted > 0 then "+promote" else "") (if !restarted > 0 then "+restart" else ""))
+   Printf.sprintf "%s%s%s" (if is_r then (if entropy <> 0 then "rpomcp-entropy" else "rpomcp-maxbelief") else kind) (if !promoted > 0 then "+promote" else "") (if !restarted > 0 then "+restart" else "") ^ (if !disc_changed then "+setdisc" else "") ^ (if !rew_changed then "+setrew" else ""))
 
 (* A horizon overrun that the known rollout-length expression does not explain (the machine run
    with rl_orig disagrees too) is reported as an oracle failure at a distinct site, so that it is
